@@ -154,6 +154,11 @@ static void mon_net_waits(const char *after)
   }
 }
 
+static void mon_net_waits_fwd(const char *after)
+{
+  mon_net_waits(after);
+}
+
 /* ------------------------------------------------------------------ timer */
 static int64_t mon_walk_deadline(void)
 {
@@ -236,6 +241,11 @@ static void mon_timer_check(void)
   }
 }
 
+static void mon_timer_check_fwd(void)
+{
+  mon_timer_check();
+}
+
 static void mon_stuck(void)
 {
   MON_EVAL("timer_stuck");
@@ -257,6 +267,25 @@ static void mon_progress_check(int64_t deadline_before, int had_fd_events)
     vh_violation("timer:deadline-not-processed",
                  "after processing at t=%lld a query whose deadline %lld has passed is still waiting (deadline before the call: %lld)",
                  (long long)sim_now_us, (long long)dl, (long long)deadline_before);
+  }
+}
+
+/* black-box form: the channel was processed at or after the announced deadline with no descriptor
+ * events: something observable must have happened (retransmission, completion, or at least a
+ * socket-layer call of the retry) */
+static void mon_progress_blackbox(int64_t deadline_before, int nev, long dtx, long dcb, long dcalls)
+{
+  if (!mon_enable_timer || deadline_before < 0 || nev > 0 || deadline_before > sim_now_us) {
+    return;
+  }
+  MON_EVAL("timer_progress_blackbox");
+  if (dtx == 0 && dcb == 0 && dcalls == 0) {
+    /* Not a verdict: a timed-out query may legitimately have been requeued onto another server's
+     * TCP connection that is still connecting (buffered, nothing visible outside).  The verdict
+     * is mon_progress_check() above (no live query keeps a deadline that has passed). */
+    sim_note("timer_progress_externally_invisible");
+  } else {
+    sim_note("timer_progress_externally_visible");
   }
 }
 
